@@ -428,4 +428,72 @@ theorem streamsAfterReports_get (failed : Nat) (reports : List Nat) :
       simp only [streamsAfterReports, List.getElem?_cons_succ] at h ⊢
       exact ih (i + 1) j ep h (by omega) (by rw [show i + 1 + j = i + (j + 1) by omega]; exact hr)
 
+/-! ### timers as concurrent sources (round 5) -/
+
+omit [DecidableEq H] in
+theorem mem_stripExpire {x : Item H P} : ∀ {xs : List (Item H P)},
+    x ∈ stripExpire xs ↔ x ∈ xs ∧ ∀ i, x ≠ Item.expire i := by
+  intro xs
+  induction xs with
+  | nil => simp [stripExpire]
+  | cons y ys ih =>
+    cases y with
+    | expire j =>
+      simp only [stripExpire, ih, List.mem_cons]
+      constructor
+      · rintro ⟨h1, h2⟩; exact ⟨Or.inr h1, h2⟩
+      · rintro ⟨h1 | h1, h2⟩
+        · exact absurd h1 (h2 j)
+        · exact ⟨h1, h2⟩
+    | other =>
+      simp only [stripExpire, List.mem_cons, ih]
+      constructor
+      · rintro (h | ⟨h1, h2⟩)
+        · subst h; exact ⟨Or.inl rfl, fun i h => by cases h⟩
+        · exact ⟨Or.inr h1, h2⟩
+      · rintro ⟨h1 | h1, h2⟩
+        · exact Or.inl h1
+        · exact Or.inr ⟨h1, h2⟩
+    | log l =>
+      simp only [stripExpire, List.mem_cons, ih]
+      constructor
+      · rintro (h | ⟨h1, h2⟩)
+        · subst h; exact ⟨Or.inl rfl, fun i h => by cases h⟩
+        · exact ⟨Or.inr h1, h2⟩
+      · rintro ⟨h1 | h1, h2⟩
+        · exact Or.inl h1
+        · exact Or.inr ⟨h1, h2⟩
+
+omit [DecidableEq H] in
+/-- removing the timer items from every source and from the merged sequence keeps it an interleaving -/
+theorem Interleaving.map_strip {ss : List (List (Item H P))} {m : List (Item H P)} (h : Interleaving ss m) :
+    Interleaving (ss.map stripExpire) (stripExpire m) := by
+  induction h with
+  | done hall =>
+    refine .done ?_
+    intro s hs
+    obtain ⟨s0, h0, rfl⟩ := List.mem_map.1 hs
+    rw [hall s0 h0]; rfl
+  | @next ss x s m i hi _ ih =>
+    have hi' : i < ss.length := by
+      rcases Nat.lt_or_ge i ss.length with h | h
+      · exact h
+      · rw [List.getElem?_eq_none h] at hi; simp at hi
+    have hget : (ss.map stripExpire)[i]? = some (stripExpire (x :: s)) := by
+      rw [List.getElem?_map, hi]; rfl
+    rw [List.map_set] at ih
+    cases x with
+    | expire j =>
+      have : (ss.map stripExpire).set i (stripExpire s) = ss.map stripExpire := by
+        apply List.ext_getElem? 
+        intro k
+        by_cases hk : k = i
+        · subst hk
+          rw [List.getElem?_set_self (by simpa using hi'), hget]; rfl
+        · rw [List.getElem?_set_ne (fun e => hk e.symm)]
+      rw [this] at ih
+      exact ih
+    | other => exact .next i (by rw [hget]; rfl) ih
+    | log l => exact .next i (by rw [hget]; rfl) ih
+
 end Dos.Events
